@@ -13,7 +13,7 @@ def rapid_unit(name, run, pkg="server", quick=None, thorough=None, **kw):
 
 def plain_unit(name, run, pkg="server", quick=None, thorough=None, **kw):
     u = {"name": name, "pkg": pkg, "run": run, "kind": "plain"}
-    u["quick"] = quick or {"shards": 1, "timeout_s": 300}
+    u["quick"] = quick or {"shards": 1, "timeout_s": 900}
     u["thorough"] = thorough or u["quick"]
     u.update(kw)
     return u
@@ -39,13 +39,13 @@ PROPS["C20"] = {
         "Shrink is generated in its own sub-property only (no caller in the tree)",
     ],
     "units": [
-        rapid_unit("nodedeque", "^TestC20_NodeDeque_Lock", quick={"checks": 24000, "shards": 8, "timeout_s": 300},
-                   thorough={"checks": 1600000, "shards": 16, "timeout_s": 1500}),
+        rapid_unit("nodedeque", "^TestC20_NodeDeque_Lock", quick={"checks": 24000, "shards": 8, "timeout_s": 900},
+                   thorough={"checks": 800000, "shards": 16, "timeout_s": 3600}),
         rapid_unit("perkey", "^TestC20_(HolderQueue|WaitQueue|Ring|PriorityRing|LongWaitQueue)$",
-                   quick={"checks": 12000, "shards": 6, "timeout_s": 300},
-                   thorough={"checks": 600000, "shards": 16, "timeout_s": 1500}),
-        rapid_unit("shrink", "^TestC20_NodeDeque_Shrink$", quick={"checks": 2000, "shards": 1, "timeout_s": 120},
-                   thorough={"checks": 50000, "shards": 2, "timeout_s": 600}),
+                   quick={"checks": 12000, "shards": 6, "timeout_s": 900},
+                   thorough={"checks": 300000, "shards": 16, "timeout_s": 3600}),
+        rapid_unit("shrink", "^TestC20_NodeDeque_Shrink$", quick={"checks": 2000, "shards": 1, "timeout_s": 900},
+                   thorough={"checks": 50000, "shards": 2, "timeout_s": 3600}),
         plain_unit("replay", "^TestC20_Replay$", replay=True),
     ],
 }
@@ -73,14 +73,14 @@ _B_GEN = (" Engine B (controlled schedules): a sequential prefix of 1..8 request
 def _engineA(prop, nontrivial, quick_checks, thorough_checks, extra_units=(), steps=None):
     units = [
         rapid_unit("A-" + prop, "^Test%s_EngineA$" % prop,
-                   quick={"checks": quick_checks, "shards": 16, "timeout_s": 420},
-                   thorough={"checks": thorough_checks, "shards": 16, "timeout_s": 3000}),
+                   quick={"checks": quick_checks, "shards": 16, "timeout_s": 900},
+                   thorough={"checks": thorough_checks, "shards": 16, "timeout_s": 6000}),
         plain_unit("replay-" + prop, "^Test%s_Replay" % prop, replay=True),
     ]
     if prop in ("C01", "C03", "C04", "C17"):
         units.insert(1, rapid_unit("B-" + prop, "^Test%s_EngineB$" % prop,
-                                   quick={"checks": 4800, "shards": 16, "timeout_s": 420},
-                                   thorough={"checks": 160000, "shards": 16, "timeout_s": 3000}))
+                                   quick={"checks": 4800, "shards": 16, "timeout_s": 900},
+                                   thorough={"checks": 80000, "shards": 16, "timeout_s": 6000}))
     units += list(extra_units)
     return {
         "level": "exploration",
@@ -102,8 +102,8 @@ PROPS["C05"] = _engineA("C05", "a TIMEOUT of a queued request fired from the lon
 PROPS["C06"] = _engineA("C06", "an EXPRIED notice while requests were queued on the key, or an applied update of a live hold.", 12000, 400000)
 PROPS["C17"] = _engineA("C17", "at least three different ways of ending a hold or a wait (unlock, one-level unlock, expiry, timeout, cancel, grant from queue) before the drain.", 12000, 400000)
 PROPS["C15"] = _engineA("C15", "engine A: at least three value operations of at least two kinds applied on one case including one refused request carrying a value operation; pure differential: at least three operations of at least two kinds.", 8000, 300000,
-    extra_units=[rapid_unit("pure", "^TestC15_PureDifferential$", quick={"checks": 40000, "shards": 8, "timeout_s": 300},
-                            thorough={"checks": 2000000, "shards": 16, "timeout_s": 2400})])
+    extra_units=[rapid_unit("pure", "^TestC15_PureDifferential$", quick={"checks": 40000, "shards": 8, "timeout_s": 900},
+                            thorough={"checks": 1000000, "shards": 16, "timeout_s": 4800})])
 PROPS["C15"]["units"][1] = plain_unit("replay-C15", "^TestC15_Replay$", replay=True)
 PROPS["C15"]["rule"] = ("Two layers. (a) pure differential: LockManager.ProcessLockData on a bare key manager vs. a sequential interpreter written from the "
                         "protocol description, 1..14 operations per case over typed keys (bytes: SET/APPEND/SHIFT/UNSET; number: INCR/SET/UNSET; array: PUSH/POP/UNSET), "
@@ -156,14 +156,14 @@ PROPS["C14"] = {
     ],
     "units": [
         rapid_unit("binary", "^TestC14_(BinaryRoundTrip|BinaryDecodeEncode|KeyIdNormalisation|ResultCodeText|TextLockConvert|ValueFrames)$",
-                   pkg="protocol", quick={"checks": 80000, "shards": 4, "timeout_s": 300},
-                   thorough={"checks": 24000000, "shards": 16, "timeout_s": 1500}),
+                   pkg="protocol", quick={"checks": 80000, "shards": 4, "timeout_s": 900},
+                   thorough={"checks": 12000000, "shards": 16, "timeout_s": 3600}),
         rapid_unit("text", "^TestC14_Text(Request|Response)Chunking$", pkg="protocol",
-                   quick={"checks": 24000, "shards": 8, "timeout_s": 300},
-                   thorough={"checks": 6000000, "shards": 16, "timeout_s": 1500}),
+                   quick={"checks": 24000, "shards": 8, "timeout_s": 900},
+                   thorough={"checks": 3000000, "shards": 16, "timeout_s": 3600}),
         rapid_unit("server", "^TestC14_(ServerInlineDecode|ServerInlineEncode|TextVsBinaryLive)$", pkg="server",
-                   quick={"checks": 32000, "shards": 4, "timeout_s": 300},
-                   thorough={"checks": 12000000, "shards": 16, "timeout_s": 1500}),
+                   quick={"checks": 32000, "shards": 4, "timeout_s": 900},
+                   thorough={"checks": 6000000, "shards": 16, "timeout_s": 3600}),
         plain_unit("replay-protocol", "^TestC14_Replay$", pkg="protocol", replay=True),
         plain_unit("replay-server", "^TestC14_Replay$", pkg="server", replay=True),
     ],
@@ -214,10 +214,10 @@ PROPS["C19"] = {
     ],
     "units": [
         rapid_unit("primitives", "^TestC19_(Lock|RLock|Semaphore|Flow|RWLock|PriorityLock|Event)$", pkg="server",
-                   quick={"checks": 160, "shards": 4, "timeout_s": 120, "shrinktime": "20s"},
-                   thorough={"checks": 4000, "shards": 8, "timeout_s": 900, "shrinktime": "30s"}),
+                   quick={"checks": 160, "shards": 4, "timeout_s": 900, "shrinktime": "20s"},
+                   thorough={"checks": 4000, "shards": 8, "timeout_s": 3600, "shrinktime": "30s"}),
         rapid_unit("reconnect", "^TestC19_LockReconnect$", pkg="server",
-                   thorough={"checks": 96, "shards": 8, "timeout_s": 600, "shrinktime": "30s"}),
+                   thorough={"checks": 96, "shards": 8, "timeout_s": 3600, "shrinktime": "30s"}),
         plain_unit("selftest", "^TestC19_OracleSelfTest$", pkg="server"),
         plain_unit("replay", "^TestC19_Replay$", pkg="server", replay=True),
     ],
@@ -249,8 +249,8 @@ PROPS["C07"] = {
         "size-triggered compaction (a goroutine racing the workload) is not generated here",
     ],
     "units": [
-        rapid_unit("restart", "^TestC07_Restart$", quick={"checks": 1600, "shards": 16, "timeout_s": 420, "shrinktime": "45s"},
-                   thorough={"checks": 60000, "shards": 16, "timeout_s": 3000, "shrinktime": "90s"}),
+        rapid_unit("restart", "^TestC07_Restart$", quick={"checks": 1600, "shards": 16, "timeout_s": 900, "shrinktime": "45s"},
+                   thorough={"checks": 60000, "shards": 16, "timeout_s": 6000, "shrinktime": "90s"}),
         plain_unit("replay", "^TestC07_Replay$", replay=True),
     ],
 }
@@ -296,12 +296,12 @@ PROPS["C12"] = {
         "acceptor state was corrupted by the known defect (and the two-winner verdict of that execution) are withheld and counted",
     ],
     "units": [
-        rapid_unit("pure", "^TestC12_Pure_", quick={"checks": 16000, "shards": 2, "timeout_s": 300},
-                   thorough={"checks": 400000, "shards": 4, "timeout_s": 1500}),
-        rapid_unit("acceptor", "^TestC12_Acceptor$", quick={"checks": 24000, "shards": 6, "timeout_s": 400},
-                   thorough={"checks": 900000, "shards": 6, "timeout_s": 2400}),
-        rapid_unit("voter", "^TestC12_Voter$", quick={"checks": 48000, "shards": 8, "timeout_s": 300},
-                   thorough={"checks": 900000, "shards": 6, "timeout_s": 2400}),
+        rapid_unit("pure", "^TestC12_Pure_", quick={"checks": 16000, "shards": 2, "timeout_s": 900},
+                   thorough={"checks": 200000, "shards": 4, "timeout_s": 3600}),
+        rapid_unit("acceptor", "^TestC12_Acceptor$", quick={"checks": 24000, "shards": 6, "timeout_s": 900},
+                   thorough={"checks": 450000, "shards": 6, "timeout_s": 4800}),
+        rapid_unit("voter", "^TestC12_Voter$", quick={"checks": 48000, "shards": 8, "timeout_s": 900},
+                   thorough={"checks": 450000, "shards": 6, "timeout_s": 4800}),
         plain_unit("replay", "^TestC12_Replay$", replay=True),
     ],
 }
@@ -324,8 +324,8 @@ PROPS["C08"] = {
         "known findings of C07 (re-lock/update records, start-up compaction race) are excluded by construction here too",
     ],
     "units": [
-        rapid_unit("cuts", "^TestC08_CrashCut$", quick={"checks": 480, "shards": 16, "timeout_s": 420, "shrinktime": "45s"},
-                   thorough={"checks": 8000, "shards": 16, "timeout_s": 3000, "shrinktime": "90s"}),
+        rapid_unit("cuts", "^TestC08_CrashCut$", quick={"checks": 480, "shards": 16, "timeout_s": 900, "shrinktime": "45s"},
+                   thorough={"checks": 8000, "shards": 16, "timeout_s": 6000, "shrinktime": "90s"}),
         plain_unit("replay", "^TestC08_Replay$", replay=True),
     ],
 }
@@ -346,8 +346,8 @@ PROPS["C16"] = {
         "crash images between the removal of the inputs and the renames are skipped while the two listed known findings are open (counted in evidence); the C07 known findings are excluded by construction",
     ],
     "units": [
-        rapid_unit("compaction", "^TestC16_Compaction$", quick={"checks": 480, "shards": 16, "timeout_s": 420, "shrinktime": "45s"},
-                   thorough={"checks": 8000, "shards": 16, "timeout_s": 3000, "shrinktime": "90s"}),
+        rapid_unit("compaction", "^TestC16_Compaction$", quick={"checks": 480, "shards": 16, "timeout_s": 900, "shrinktime": "45s"},
+                   thorough={"checks": 8000, "shards": 16, "timeout_s": 6000, "shrinktime": "90s"}),
         plain_unit("replay", "^TestC16_Replay$", replay=True),
     ],
 }
@@ -399,10 +399,10 @@ PROPS["C13"] = {
         "known findings (listed in known_findings.json) are excluded by construction and counted; see notes/C13.md §3",
     ],
     "units": [
-        rapid_unit("wire", "^TestC13_Wire$", quick={"checks": 12000, "shards": 12, "timeout_s": 300, "shrinktime": "20s"},
-                   thorough={"checks": 320000, "shards": 16, "timeout_s": 3000}),
-        rapid_unit("timers", "^TestC13_WireTimers$", quick={"checks": 240, "shards": 4, "timeout_s": 300, "shrinktime": "20s"},
-                   thorough={"checks": 9600, "shards": 16, "timeout_s": 3000}),
+        rapid_unit("wire", "^TestC13_Wire$", quick={"checks": 12000, "shards": 12, "timeout_s": 900, "shrinktime": "20s"},
+                   thorough={"checks": 160000, "shards": 16, "timeout_s": 6000}),
+        rapid_unit("timers", "^TestC13_WireTimers$", quick={"checks": 240, "shards": 4, "timeout_s": 900, "shrinktime": "20s"},
+                   thorough={"checks": 9600, "shards": 16, "timeout_s": 6000}),
         {"name": "fuzz", "pkg": "server", "run": "FuzzC13_Wire", "kind": "fuzz",
          "thorough": {"fuzztime": "300s", "shards": 1, "timeout_s": 900}},
         plain_unit("replay", "^TestC13_Replay$", replay=True),
@@ -437,8 +437,8 @@ PROPS["C18"] = {
         "the real goroutines are serialised by the harness (it acts only when every handler is parked); proto-race is the only step with two goroutines racing and is judged on its end state only",
     ],
     "units": [
-        rapid_unit("D-C18", "^TestC18_Disconnect$", quick={"checks": 24000, "shards": 16, "timeout_s": 300},
-                   thorough={"checks": 480000, "shards": 16, "timeout_s": 1500}),
+        rapid_unit("D-C18", "^TestC18_Disconnect$", quick={"checks": 24000, "shards": 16, "timeout_s": 900},
+                   thorough={"checks": 240000, "shards": 16, "timeout_s": 3600}),
         plain_unit("replay-C18", "^TestC18_Replay$", replay=True),
     ],
 }
@@ -473,10 +473,10 @@ PROPS["C11"] = {
         "while listed findings are open: no re-entrant ack request, no never-persist flag, buffer 4096 when a write fault is drawn, value operations whose undo is inexact in the current state are replaced by SET, demotion is executed with the mutex released around updateState, a LOCKED_ERROR after the TIMEOUT of an ack wait is counted as known hit (all counted in evidence)",
     ],
     "units": [
-        rapid_unit("single", "^TestC11_SingleNode$", quick={"checks": 16000, "shards": 8, "timeout_s": 300, "shrinktime": "30s"},
-                   thorough={"checks": 200000, "shards": 8, "timeout_s": 1800, "shrinktime": "60s"}),
-        rapid_unit("cluster", "^TestC11_Cluster$", quick={"checks": 4000, "shards": 8, "timeout_s": 300, "shrinktime": "30s"},
-                   thorough={"checks": 48000, "shards": 8, "timeout_s": 1800, "shrinktime": "60s"}),
+        rapid_unit("single", "^TestC11_SingleNode$", quick={"checks": 16000, "shards": 8, "timeout_s": 900, "shrinktime": "30s"},
+                   thorough={"checks": 100000, "shards": 8, "timeout_s": 3600, "shrinktime": "60s"}),
+        rapid_unit("cluster", "^TestC11_Cluster$", quick={"checks": 4000, "shards": 8, "timeout_s": 900, "shrinktime": "30s"},
+                   thorough={"checks": 48000, "shards": 8, "timeout_s": 3600, "shrinktime": "60s"}),
         plain_unit("replay", "^TestC11_Replay$", replay=True),
     ],
 }
@@ -543,11 +543,11 @@ PROPS["C09"] = {
     ],
     "units": [
         # the driver divides `checks` by `shards`
-        rapid_unit("ring", "^TestC09_RingModel$", quick={"checks": 160000, "shards": 4, "timeout_s": 120},
-                   thorough={"checks": 3200000, "shards": 16, "timeout_s": 900}),
-        rapid_unit("cluster", "^TestC09_Cluster$", quick={"checks": 200, "shards": 8, "timeout_s": 300},
-                   thorough={"checks": 2500, "shards": 16, "timeout_s": 1500}),
-        plain_unit("replay", "^TestC09_Replay$", replay=True, quick={"shards": 1, "timeout_s": 600}),
+        rapid_unit("ring", "^TestC09_RingModel$", quick={"checks": 160000, "shards": 4, "timeout_s": 900},
+                   thorough={"checks": 1600000, "shards": 16, "timeout_s": 3600}),
+        rapid_unit("cluster", "^TestC09_Cluster$", quick={"checks": 200, "shards": 8, "timeout_s": 900},
+                   thorough={"checks": 2500, "shards": 16, "timeout_s": 3600}),
+        plain_unit("replay", "^TestC09_Replay$", replay=True, quick={"shards": 1, "timeout_s": 1200}),
     ],
 }
 
@@ -589,11 +589,11 @@ PROPS["C10"] = {
     ],
     "units": [
         # the driver divides `checks` by `shards`
-        rapid_unit("forward", "^TestC10_Forward$", quick={"checks": 200, "shards": 8, "timeout_s": 300},
-                   thorough={"checks": 4000, "shards": 16, "timeout_s": 1500}),
-        rapid_unit("expiry", "^TestC10_FollowerKeepsExpiredHold$", quick={"checks": 30, "shards": 2, "timeout_s": 240},
-                   thorough={"checks": 600, "shards": 4, "timeout_s": 900}),
-        plain_unit("expiry-real", "^TestC10_FollowerKeepsExpiredHoldReal$", quick={"shards": 1, "timeout_s": 120}),
+        rapid_unit("forward", "^TestC10_Forward$", quick={"checks": 200, "shards": 8, "timeout_s": 900},
+                   thorough={"checks": 4000, "shards": 16, "timeout_s": 3600}),
+        rapid_unit("expiry", "^TestC10_FollowerKeepsExpiredHold$", quick={"checks": 30, "shards": 2, "timeout_s": 900},
+                   thorough={"checks": 600, "shards": 4, "timeout_s": 3600}),
+        plain_unit("expiry-real", "^TestC10_FollowerKeepsExpiredHoldReal$", quick={"shards": 1, "timeout_s": 900}),
         plain_unit("replay", "^TestC10_Replay$", replay=True),
     ],
 }
@@ -619,17 +619,17 @@ _R_ASSUME = [
 ]
 for _p in ("C05", "C06"):
     PROPS[_p]["units"] += [
-        rapid_unit("R-" + _p, "^Test" + _p + "_RealTime$", quick={"checks": 192, "shards": 16, "timeout_s": 400},
-                   thorough={"checks": 3200, "shards": 16, "timeout_s": 1800}),
-        plain_unit("replay-rt-" + _p, "^Test" + _p + "_RTReplay$", replay=True, replay_match="^rt-", quick={"shards": 1, "timeout_s": 300}),
+        rapid_unit("R-" + _p, "^Test" + _p + "_RealTime$", quick={"checks": 192, "shards": 16, "timeout_s": 900},
+                   thorough={"checks": 3200, "shards": 16, "timeout_s": 3600}),
+        plain_unit("replay-rt-" + _p, "^Test" + _p + "_RTReplay$", replay=True, replay_match="^rt-", quick={"shards": 1, "timeout_s": 900}),
     ]
     PROPS[_p]["rule"] = PROPS[_p]["rule"] + " Second engine: " + _R_RULE
     PROPS[_p]["assumptions"] = PROPS[_p]["assumptions"] + _R_ASSUME
 
 # engine T (Redis-style text commands against a key-value reference store; harness/server/c15t_*.go, notes/C15T.md)
 PROPS["C15"]["units"] += [
-    rapid_unit("text-kv", "^TestC15_TextKV$", quick={"checks": 4000, "shards": 8, "timeout_s": 600},
-               thorough={"checks": 48000, "shards": 16, "timeout_s": 3600}),
+    rapid_unit("text-kv", "^TestC15_TextKV$", quick={"checks": 4000, "shards": 8, "timeout_s": 1200},
+               thorough={"checks": 48000, "shards": 16, "timeout_s": 7200}),
     plain_unit("replay-C15-text", "^TestC15_TextReplay$", replay=True, replay_match="^text-"),
 ]
 PROPS["C15"]["rule"] = PROPS["C15"]["rule"] + (" (c) engine T: one fresh leader per case under a virtual clock, 1..2 text connections served by the real "
